@@ -330,6 +330,31 @@ def oracle(case: dict):
                         return ("raises", f"{name}.to_string raised {type(e).__name__}: {e}")
                     if not gen.typed_eq(gen.plain(dict(arg)), ref):
                         return ("input-modified", f"{name}.to_string modified its argument ({type(arg).__name__})")
+            # values as a read with NumPy expressions leaves them (arrays, NumPy scalars), tuples: compared with their TYPES
+            # (a serialiser that cannot express one may raise; it may not convert it in the caller's dict)
+            import numpy as np
+
+            def fp(x):
+                if isinstance(x, dict):
+                    return ("dict", type(x).__name__, [(k, fp(v)) for k, v in x.items()])
+                if isinstance(x, (list, tuple)):
+                    return (type(x).__name__, [fp(v) for v in x])
+                if isinstance(x, np.ndarray):
+                    return ("ndarray", str(x.dtype), x.shape, x.tolist())
+                return (type(x).__name__, repr(x))
+
+            objs = [{"vector": np.array([2, 2, 2]), "n": 1}, {"sub": {"m": np.eye(2), "s": "x"}, "l": [np.ones(2), 1]},
+                    {"scalar": np.float64(2.5), "i": np.int64(3)}, {"t": (1, 2), "deep": {"a": {"arr": np.arange(3)}}}]
+            for name in ("NativeFormatter", "FoamFormatter", "JsonFormatter", "XmlFormatter"):
+                for d in objs:
+                    for arg in (copy.deepcopy(d), dictIO.SDict(copy.deepcopy(d))):
+                        before = fp(arg)
+                        try:
+                            getattr(dictIO, name)().to_string(arg)
+                        except Exception:  # noqa: BLE001
+                            pass
+                        if fp(arg) != before:
+                            return ("input-modified", f"{name}.to_string modified its argument {before!r} -> {fp(arg)!r}")
             return None
         raise ValueError(op)
     finally:
